@@ -28,6 +28,8 @@ ReqCallableImpliesDone ==
   \A m \in DOMAIN Req : (Line[m].cal = 1 /\ ~Done(m)) => \E n \in Ms : Done(n) /\ C!Conflict(cfg, m, n)
 NoConflictingPair == \A m, n \in Ms : (m # n /\ Done(m) /\ Done(n)) => ~C!Conflict(cfg, m, n)
 AssumeHolds == C!Assume(cfg, st, Calls, In)
+\* a method that has a second (shadow) caller in the harness is never executed for both callers in one cycle
+ExclusiveOnce == \A m \in Ms : Line[m].both = 0
 \* ---- stage B: data
 ResultMatches ==
   \A m \in DOMAIN Calls : C!ResAny(cfg, st, m) \/ Line[m].out = C!Result(cfg, st, m, Calls, In, Line.pub)
@@ -37,7 +39,8 @@ Nx == C!CNext(cfg, st, Calls, In, Line.pub)
 Gx == C!GNext(cfg, g, st, Calls, In, ObsRes, Line.pub)
 PropertyHolds == C!StepProp(cfg, st, g, Req, Calls, In, ObsRes, Line.pub, Nx)
 HistoryHolds == C!GInv(cfg, Nx, Gx) /\ C!Inv(cfg, Nx)
-StageA == {"CallableMatches", "DoneImpliesReqAndCallable", "ReqCallableImpliesDone", "NoConflictingPair", "AssumeHolds"}
+StageA == {"CallableMatches", "DoneImpliesReqAndCallable", "ReqCallableImpliesDone", "NoConflictingPair", "AssumeHolds",
+           "ExclusiveOnce"}
 StageB == {"ResultMatches", "ObsMatches"}
 StageC == {"PropertyHolds", "HistoryHolds"}
 Holds(n) == CASE n = "CallableMatches" -> CallableMatches
@@ -45,6 +48,7 @@ Holds(n) == CASE n = "CallableMatches" -> CallableMatches
               [] n = "ReqCallableImpliesDone" -> ReqCallableImpliesDone
               [] n = "NoConflictingPair" -> NoConflictingPair
               [] n = "AssumeHolds" -> AssumeHolds
+              [] n = "ExclusiveOnce" -> ExclusiveOnce
               [] n = "ResultMatches" -> ResultMatches
               [] n = "ObsMatches" -> ObsMatches
               [] n = "PropertyHolds" -> PropertyHolds
